@@ -15,9 +15,10 @@ For format 2 the "applied" bit of an entry *is* its ignored flag (glyph_keyed.rs
 entry's format flags), so "un-applied, un-ignored" is `ignored = false`.
 -/
 import FontVerif.Lemmas.PatchMap
+import FontVerif.Lemmas.PatchGroup
 set_option linter.unusedVariables false
 namespace FontVerif.C19
-open FontVerif FontVerif.PatchMap
+open FontVerif FontVerif.PatchMap FontVerif.PatchGroup FontVerif.UriTemplate
 
 /-- an offered uri without the recorded intersection size (which legitimately depends on the
 definition): template, id, format, source table, compat id, application bit -/
@@ -132,6 +133,239 @@ theorem table_offer_exact (tag : TableTag) (t : F2Table) (d : SubsetDef) (us : L
     simp only [stripInfo, offeredUri]
     split <;> rfl
 
+/-! ## (3) the selected group
+
+`selectFromCandidates cands iftId iftxId` is `select_next_patches_from_candidates`; `iftId` /
+`iftxId` are the compatibility ids of the font's 'IFT ' / 'IFTX' tables (`select_next_patches`
+refuses fonts where they coincide, so a compat id identifies a mapping table).
+`infoLt a b` (Lemmas/PatchGroup.lean) is the strict selection order: `a` has a strictly smaller
+intersection than `b` (codepoints, then layout tags, then design space), or the same intersection
+and a **later** entry order.  It is a strict total order (`infoLt_irrefl/trans/total`), and
+`IntersectionInfo::cmp` decides it (`cmp_lt_iff`, `cmp_gt_iff`). -/
+
+/-- **group_no_duplicate_uri.**  A selected group never contains the same uri twice (across the
+invalidating and the non-invalidating patches of both tables). -/
+theorem group_no_duplicate_uri (cands : List PatchUri) (iftId iftxId : Option Nat) (g : Group)
+    (h : selectFromCandidates cands iftId iftxId = .ok g) : g.uris.Nodup :=
+  group_no_duplicate_uri' h
+
+/-- **full_is_alone.**  The group is a fully invalidating patch **iff** some candidate is fully
+invalidating; and then the group consists of that single uri and nothing else. -/
+theorem full_is_alone (cands : List PatchUri) (iftId iftxId : Option Nat) (g : Group)
+    (h : selectFromCandidates cands iftId iftxId = .ok g) :
+    ((∃ u, u ∈ cands ∧ u.enc = .tkFull) ↔ ∃ p, g = .full p) ∧
+    ∀ p, g = .full p → g.uris = [p.uri] ∧ g.invalidating = [p] ∧ g.nonInvalidating = [] := by
+  refine ⟨sel_full_iff h, ?_⟩
+  rintro p rfl
+  exact ⟨rfl, rfl, rfl⟩
+
+/-- **at_most_one_invalidating_per_table.**  Without a fully invalidating candidate the group has
+one slot per mapping table; a slot is either exactly one partially invalidating patch or a set of
+non-invalidating patches, and everything in the first slot carries the 'IFT ' compat id, everything
+in the second the (different) 'IFTX' compat id.  Hence at most two invalidating patches, never two
+for the same table, and no non-invalidating patch of a table next to an invalidating one of it. -/
+theorem at_most_one_invalidating_per_table (cands : List PatchUri) (iftId iftxId : Option Nat)
+    (g : Group) (h : selectFromCandidates cands iftId iftxId = .ok g) :
+    (∀ p q, p ∈ g.invalidating → q ∈ g.invalidating → p.compat = q.compat → p = q) ∧
+    g.invalidating.length ≤ 2 ∧
+    ∀ A B, g = .mixed A B →
+      (∀ p, A = .partialInv p → some p.compat = iftId) ∧
+      (∀ m, A = .noInv m → ∀ x, x ∈ m → some x.2.compat = iftId) ∧
+      (∀ q, B = .partialInv q → some q.compat = iftxId ∧ some q.compat ≠ iftId) ∧
+      (∀ m, B = .noInv m → ∀ x, x ∈ m → some x.2.compat = iftxId ∧ some x.2.compat ≠ iftId) := by
+  refine ⟨?_, ?_, fun A B hg => sel_slots h A B hg⟩
+  · intro p q hp hq hpq
+    cases g with
+    | full r =>
+      simp only [Group.invalidating, List.mem_singleton] at hp hq
+      rw [hp, hq]
+    | mixed A B =>
+      obtain ⟨hA, _, hB, _⟩ := sel_slots h A B rfl
+      cases A with
+      | partialInv a =>
+        cases B with
+        | partialInv b =>
+          simp only [Group.invalidating, List.cons_append, List.nil_append, List.mem_cons,
+            List.not_mem_nil, or_false] at hp hq
+          have h1 := hA a rfl
+          have h2 := (hB b rfl).2
+          rcases hp with rfl | rfl <;> rcases hq with rfl | rfl
+          · rfl
+          · exact absurd (hpq ▸ h1) h2
+          · exact absurd (hpq ▸ h1) h2
+          · rfl
+        | noInv m =>
+          simp only [Group.invalidating, List.append_nil, List.mem_singleton] at hp hq
+          rw [hp, hq]
+      | noInv m =>
+        cases B with
+        | partialInv b =>
+          simp only [Group.invalidating, List.nil_append, List.mem_singleton] at hp hq
+          rw [hp, hq]
+        | noInv m' => simp [Group.invalidating] at hp
+  · cases g with
+    | full r => simp [Group.invalidating]
+    | mixed A B => cases A <;> cases B <;> simp [Group.invalidating]
+
+/-- **invalidating_choice_is_max.**  Each invalidating patch in the group comes from a candidate
+`u` of its class (fully invalidating: all tables; partially invalidating: its own table) such that
+no competing candidate `v` is better: `¬ infoLt u.info v.info`, i.e. `v` neither has a strictly
+larger intersection nor the same intersection with an earlier entry.  For the second table the
+competitors exclude candidates expanding to the uri already chosen for the first table. -/
+theorem invalidating_choice_is_max (cands : List PatchUri) (iftId iftxId : Option Nat) (g : Group)
+    (h : selectFromCandidates cands iftId iftxId = .ok g) :
+    (∀ p, g = .full p →
+      ∃ u, u ∈ cands ∧ u.enc = .tkFull ∧ toPatchInfo u = some p ∧
+        ∀ v, v ∈ cands → v.enc = .tkFull → ¬ infoLt u.info v.info) ∧
+    (∀ p B, g = .mixed (.partialInv p) B →
+      ∃ u, u ∈ cands ∧ u.enc = .tkPartial ∧ some u.compat = iftId ∧ toPatchInfo u = some p ∧
+        ∀ v, v ∈ cands → v.enc = .tkPartial → some v.compat = iftId → ¬ infoLt u.info v.info) ∧
+    (∀ A q, g = .mixed A (.partialInv q) →
+      ∃ u, u ∈ cands ∧ u.enc = .tkPartial ∧ some u.compat ≠ iftId ∧ some u.compat = iftxId ∧
+        toPatchInfo u = some q ∧
+        ∀ v, v ∈ cands → v.enc = .tkPartial → some v.compat ≠ iftId → some v.compat = iftxId →
+          (∀ p, A = .partialInv p → uriString v ≠ some p.uri) → ¬ infoLt u.info v.info) :=
+  ⟨fun p hg => sel_full_max h p hg, fun p B hg => sel_partial_ift_max h p B hg,
+   fun A q hg => sel_partial_iftx_max h q A hg⟩
+
+/-- **selection_order_is_total.**  The order used for the choice is a lawful strict total order, so
+"maximum" is meaningful: `Ord for IntersectionInfo` never reports `a < b` and `b < a`, is
+transitive, and distinguishes any two different infos. -/
+theorem selection_order_is_total (a b c : IntersectionInfo) :
+    (a.cmp b = .lt ↔ infoLt a b) ∧ (a.cmp b = .gt ↔ infoLt b a) ∧ ¬ infoLt a a ∧
+    (infoLt a b → infoLt b c → infoLt a c) ∧ (infoLt a b ∨ a = b ∨ infoLt b a) :=
+  ⟨cmp_lt_iff a b, cmp_gt_iff a b, infoLt_irrefl a, infoLt_trans, infoLt_total a b⟩
+
+/-- **group_subset_of_offer.**  Every patch in the group is one of the candidates (same uri
+expansion, table, compat id and application bit). -/
+theorem group_subset_of_offer (cands : List PatchUri) (iftId iftxId : Option Nat) (g : Group)
+    (h : selectFromCandidates cands iftId iftxId = .ok g) (p : PatchInfo)
+    (hp : p ∈ g.invalidating ++ g.nonInvalidating) :
+    ∃ u, u ∈ cands ∧ uriString u = some p.uri ∧ p.table = u.table ∧ p.compat = u.compat ∧
+      p.bit = u.bit := by
+  obtain ⟨u, hu, hpi⟩ := sel_subset h p hp
+  exact ⟨u, hu, toPatchInfo_fields hpi⟩
+
+/-- **select_one_invalidating_per_table.**  At the level of `PatchGroup::select_next_patches` on a
+font's two mapping tables (format 1 or format 2, any contents): two invalidating patches of the
+selected group never come from the same mapping table, and never share a uri. -/
+theorem select_one_invalidating_per_table (ift iftx : MapTable) (d : SubsetDef) (G : Group)
+    (h : selectNext ift iftx d = .ok (some G)) :
+    (∀ p q, p ∈ G.invalidating → q ∈ G.invalidating → p.table = q.table → p = q) ∧ G.uris.Nodup := by
+  obtain ⟨cands, hc, hcase⟩ := selectNext_cases h
+  rcases hcase with ⟨_, hg⟩ | ⟨_, hne, G', hg, hsel⟩
+  · cases hg
+  · cases hg
+    refine ⟨?_, group_no_duplicate_uri' hsel⟩
+    have hfrom := intersectingPatches_from hc
+    have htab : ∀ p, p ∈ G.invalidating →
+        (p.table = .ift ↔ some p.compat = MapTable.compatId ift) := by
+      intro p hp
+      obtain ⟨u, hu, hpi⟩ := sel_subset hsel p (List.mem_append_left _ hp)
+      obtain ⟨_, ht, hcp, _⟩ := toPatchInfo_fields hpi
+      rw [ht, hcp]
+      rcases hfrom u hu with ⟨h1, h2⟩ | ⟨h1, h2⟩
+      · simp [h1, h2]
+      · rw [h1, h2]
+        constructor
+        · intro hx; cases hx
+        · intro hx; exact absurd hx.symm hne
+    obtain ⟨hone, _, _⟩ := at_most_one_invalidating_per_table cands _ _ G hsel
+    intro p q hp hq hpq
+    cases G with
+    | full r =>
+      simp only [Group.invalidating, List.mem_singleton] at hp hq
+      rw [hp, hq]
+    | mixed A B =>
+      obtain ⟨hA, _, hB, _⟩ := sel_slots hsel A B rfl
+      cases A with
+      | partialInv a =>
+        cases B with
+        | partialInv b =>
+          have ha : a.table = .ift := (htab a (by simp [Group.invalidating])).2 (hA a rfl)
+          have hb : b.table ≠ .ift := fun hx =>
+            (hB b rfl).2 ((htab b (by simp [Group.invalidating])).1 hx)
+          simp only [Group.invalidating, List.cons_append, List.nil_append, List.mem_cons,
+            List.not_mem_nil, or_false] at hp hq
+          rcases hp with rfl | rfl <;> rcases hq with rfl | rfl
+          · rfl
+          · exact absurd (hpq ▸ ha) hb
+          · exact absurd (hpq.symm ▸ ha) hb
+          · rfl
+        | noInv m =>
+          simp only [Group.invalidating, List.append_nil, List.mem_singleton] at hp hq
+          rw [hp, hq]
+      | noInv m =>
+        cases B with
+        | partialInv b =>
+          simp only [Group.invalidating, List.nil_append, List.mem_singleton] at hp hq
+          rw [hp, hq]
+        | noInv m' => simp [Group.invalidating] at hp
+
+/-! ## (4) progress and termination -/
+
+/-- **select_progress.**  If `intersecting_patches` offers anything and selection succeeds, the
+group has uris (`has_uris`): a non-empty offered set yields a non-empty group. -/
+theorem select_progress (ift iftx : MapTable) (d : SubsetDef) (cands : List PatchUri)
+    (g : Option Group) (hc : intersectingPatches ift iftx d = .ok cands) (hne : cands ≠ [])
+    (h : selectNext ift iftx d = .ok g) : hasUris g = true ∧ optUris g ≠ [] := by
+  obtain ⟨cands', hc', hcase⟩ := selectNext_cases h
+  rw [hc] at hc'
+  cases hc'
+  rcases hcase with ⟨he, _⟩ | ⟨_, _, G, hg, hsel⟩
+  · exact absurd he hne
+  · subst hg
+    have hfrom := intersectingPatches_from hc
+    have hp := sel_progress hsel hne (fun u hu => (hfrom u hu).imp (·.2) (·.2))
+    refine ⟨hp, ?_⟩
+    intro hnil
+    cases G with
+    | full p => simp [optUris, Group.uris, Group.invalidating] at hnil
+    | mixed A B =>
+      cases A <;> cases B <;>
+        simp_all [optUris, Group.uris, Group.invalidating, Group.nonInvalidating, hasUris]
+
+/-- **select_none_iff_no_offer.**  `select_next_patches` reports "nothing to do" exactly when
+nothing is offered. -/
+theorem select_none_iff_no_offer (ift iftx : MapTable) (d : SubsetDef) (g : Option Group)
+    (h : selectNext ift iftx d = .ok g) :
+    g = none ↔ intersectingPatches ift iftx d = .ok [] := by
+  obtain ⟨cands, hc, hcase⟩ := selectNext_cases h
+  rcases hcase with ⟨he, hg⟩ | ⟨hne, _, G, hg, _⟩
+  · subst he; exact ⟨fun _ => hc, fun _ => hg⟩
+  · subst hg
+    constructor
+    · intro hx; cases hx
+    · intro hx; rw [hc] at hx; cases hx; exact absurd rfl hne
+
+/-- **round_progress.**  A successful `apply_next_patches` round — with ARBITRARY table-keyed and
+glyph-keyed application functions — flips at least one uri of the group from `Pending` to `Applied`
+(a uri that was not applied before), never un-applies a uri, and strictly increases the number of
+applied uris.  Otherwise the round reports an error. -/
+theorem round_progress {F : Type} (g : Option Group)
+    (applyTk : PatchInfo → List Nat → Except String F)
+    (applyGk : List (PatchInfo × List Nat) → Except String F)
+    (pd pd' : PatchData) (f : F) (h : applyNext g applyTk applyGk pd = .ok (f, pd')) :
+    (∃ u data, u ∈ optUris g ∧ pdGet pd u = some (.pending data) ∧ pdGet pd' u = some .applied) ∧
+    (∀ k, pdGet pd k = some .applied → pdGet pd' k = some .applied) ∧
+    appliedCount pd < appliedCount pd' :=
+  applyNext_progress g applyTk applyGk pd pd' f h
+
+/-- **extension_terminates.**  In the select → fetch-missing → apply loop, for ANY selection
+function, patch-application functions and server: the number of completed rounds never exceeds the
+number of uris that became applied, and a run that exhausts `fuel` rounds has applied at least
+`fuel` distinct status entries.  So when only `N` uris can ever be named, the loop stops (done or
+error) within `N` rounds. -/
+theorem extension_terminates {F : Type} (select : F → Except String (Option Group))
+    (applyTk : F → PatchInfo → List Nat → Except String F)
+    (applyGk : F → List (PatchInfo × List Nat) → Except String F)
+    (fetch : Uri → List Nat) (fuel rounds : Nat) (font : F) (pd : PatchData) :
+    match extend select applyTk applyGk fetch fuel rounds font pd with
+    | .done _ pd' r' => r' + appliedCount pd ≤ rounds + appliedCount pd'
+    | .failed _ r' => rounds ≤ r'
+    | .outOfFuel _ pd' => fuel + appliedCount pd ≤ appliedCount pd' :=
+  extend_progress select applyTk applyGk fetch fuel rounds font pd
+
 /-! ## non-vacuity -/
 
 section Examples
@@ -175,6 +409,49 @@ example : offeredIdx sampleEntries defA = [0, 3] := by decide
 example : offeredIdx sampleEntries defB = [0, 2, 3] := by decide
 example : offeredIdx sampleEntries SubsetDef.allDef = [0, 2, 3] := by decide
 example : offeredIdx sampleEntries SubsetDef.empty = [] := by decide
+
+private def mkUri (id : Nat) (enc : PatchFormat) (table : TableTag) (compat bit : Nat)
+    (cps order : Nat) : PatchUri :=
+  { template := [123, 105, 100, 125], id := .num id, enc := enc, table := table, compat := compat,
+    bit := bit, info := ⟨cps, 0, [], order⟩ }
+
+/-- 'IFT ' (compat 7): 9 codepoints at order 1 beats 9 at order 2 and 5 at order 0.  'IFTX' (compat
+8): the 50-codepoint candidate expands to the uri already picked for 'IFT ' (id 2), so the
+3-codepoint one is taken; the glyph-keyed candidate is not applied alongside. -/
+example : (selectFromCandidates
+    [mkUri 1 .tkPartial .ift 7 100 5 0, mkUri 2 .tkPartial .ift 7 101 9 1,
+     mkUri 3 .tkPartial .ift 7 102 9 2, mkUri 2 .tkPartial .iftx 8 200 50 0,
+     mkUri 4 .tkPartial .iftx 8 201 3 1, mkUri 5 .glyphKeyed .iftx 8 202 0 0]
+    (some 7) (some 8)).toOption.map (fun g => (g.invalidating.map (·.bit), g.uris.length))
+    = some ([101, 201], 2) := by decide
+
+/-- glyph-keyed candidates of both tables are all taken, the uri shared by both (id 2) once -/
+example : (selectFromCandidates
+    [mkUri 1 .glyphKeyed .ift 7 100 0 0, mkUri 2 .glyphKeyed .ift 7 101 0 0,
+     mkUri 2 .glyphKeyed .iftx 8 200 0 0, mkUri 4 .glyphKeyed .iftx 8 201 0 0]
+    (some 7) (some 8)).toOption.map (fun g => (g.invalidating.map (·.bit), g.nonInvalidating.map (·.bit)))
+    = some ([], [100, 101, 201]) := by decide
+
+/-- a fully invalidating candidate (of either table) is selected alone; the larger intersection wins -/
+example : (selectFromCandidates
+    [mkUri 1 .glyphKeyed .ift 7 100 0 0, mkUri 2 .tkPartial .ift 7 101 90 1,
+     mkUri 3 .tkFull .iftx 8 200 4 0, mkUri 4 .tkFull .ift 7 103 6 3]
+    (some 7) (some 8)).toOption.map (fun g => (g.invalidating.map (·.bit), g.uris.length))
+    = some ([103], 1) := by decide
+
+/-- a malformed uri template among the candidates is an error, not a partial group -/
+example : (match selectFromCandidates [{ mkUri 1 .glyphKeyed .ift 7 100 0 0 with template := [123] }]
+    (some 7) (some 8) with | .error e => e | .ok _ => "ok") = "err:Malformed:Malformed_URI_templates." := by
+  decide
+
+/-- one round: the pending uri of the group becomes applied -/
+example : (applyNext (F := Unit) (some (.full ⟨[48], .ift, 7, 100⟩)) (fun _ _ => .ok ()) (fun _ => .ok ())
+    [([48], .pending [1, 2, 3])]).toOption.map (·.2) = some [([48], .applied)] := by decide
+
+/-- ... and a group whose uris are all applied already is an error, not a silent no-op -/
+example : (match applyNext (F := Unit) (some (.full ⟨[48], .ift, 7, 100⟩)) (fun _ _ => .ok ())
+    (fun _ => .ok ()) [([48], .applied)] with | .error e => e | .ok _ => "ok") = "err:EmptyPatchList" := by
+  decide
 
 end Examples
 
